@@ -124,6 +124,22 @@ def random_exec(rng, max_groups, max_tests):
     return ex
 
 
+def long_exec(rng):
+    """one group, one or two tests, with LONG values (100-400 bytes, specials sparse so that they land at many different offsets of
+    whatever buffering the writer uses) in every field: name, group, file path, failure message, printed text"""
+    def lstr(forbid=(122,)):
+        return rstr(rng, 100, 400, special=rng.choice([0.01, 0.03, 0.1]), forbid=forbid)
+    ex = [["start", "", "", "", 0, "0"], ["group", hx(lstr()), "", "", 0, ""]]
+    for _ in range(rng.choice([1, 2])):
+        tfile = lstr()
+        ex.append(["test", hx(lstr()), hx(tfile), "", 12, "n"])
+        ex.append(["print", hx(rstr(rng, 50, 300, special=0.05, forbid=(35,))), "", "", 0, ""])
+        ex.append(["fail", hx(tfile if rng.random() < 0.5 else lstr()), "", hx(lstr()), 15, ""])
+        ex.append(["endtest", "", "", "", 0, ""])
+    ex += [["endgroup", "", "", "", 0, ""], ["end", "", "", "", 0, ""]]
+    return ex
+
+
 def nontrivial(ex):
     """a run that exercises something beyond plain passing tests with plain names"""
     for l in ex:
@@ -216,6 +232,13 @@ def run(ctx):
     for e in execs:
         if nontrivial(e):
             nontriv.add(json.dumps(e))
+    # long values: a seeded change that buffered escaped output in 128-byte chunks and lost the second byte of an escape pair at a
+    # chunk boundary went unnoticed while every generated value was shorter than 25 bytes
+    execs = [long_exec(ctx.rng) for _ in range(8 if quick else 80)]
+    conform(ctx, "long-values", execs, run_harness, "Trace_TeamCity", tcfg, pcfg, key_fn, tlc_timeout=1500)
+    ctx.evaluations += sum(len(e) for e in execs)
+    for e in execs:
+        nontriv.add(json.dumps(e)[:400])
     return ctx.finish(
         rule="executions = complete runs (registry callbacks start..end) generated by TLC from TeamCity.tla (exhaustive for 1 group x 1 test and "
              "2 groups x 2-3 tests over small alphabets, simulation up to 6 groups) plus seeded random runs of up to 10/30 groups, each executed by "
